@@ -54,6 +54,10 @@ def gen_cases(ctx):
         {"op": "geojson", "raw": {"type": "FeatureCollection", "features": []}, "indent": 2, "ensure_ascii": False, "columns": []},
         {"op": "geojson", "raw": {"type": "FeatureCollection", "features": [{"type": "Feature", "properties": {"name": "n"}, "geometry": None}, {"type": "Feature", "properties": {"pop": 3}, "geometry": None}]}, "indent": "default", "ensure_ascii": False, "columns": []},
     ]
+    # known finding (reserved-name): a property KEY named "geometry" — the frame keeps the feature's geometry under that name
+    cases.append({"op": "geojson", "raw": {"type": "FeatureCollection", "features": [
+        {"type": "Feature", "properties": {"name": "a", "geometry": "x"}, "geometry": {"type": "Point", "coordinates": [0, 0]}},
+        {"type": "Feature", "properties": {"name": "b", "geometry": "y"}, "geometry": None}]}, "indent": "default", "ensure_ascii": False, "columns": []})
     n = 300 if ctx.tier == "quick" else 6000
     for _ in range(n):
         cases.append(gen_case(rng, ctx.tier))
